@@ -66,6 +66,8 @@ Step ==
               /\ healInfo' = [on |-> FALSE]
          [] Line.op = "byz" -> reg' = AddBlocks(reg, Line.new)
                                /\ UNCHANGED <<cfg, clog, voted, tsigned, votesFor, tsigners, offered, xlog, digests, outcomes, healInfo>>
+         [] Line.op = "relead" -> /\ cfg' = [cfg EXCEPT !.leaders = Line.leaders]
+                                  /\ UNCHANGED <<reg, clog, voted, tsigned, votesFor, tsigners, offered, xlog, digests, outcomes, healInfo>>
          [] Line.op = "heal" ->
               /\ healInfo' = [on |-> TRUE, members |-> ToSet(Line.members), view |-> Line.view, len |-> [r \in Nodes |-> Len(clog[r])], ff |-> Line.faultfree]
               /\ cfg' = [cfg EXCEPT !.leaders = Line.leaders]
